@@ -9,7 +9,9 @@ HARNESS = "c09"
 CONST_GROUPS = ["mqtt", "facts"]
 STATELESS = True
 TIMEOUT = 3000
-RULE = ("one case = one operation line. In-process (real code under recover): mqtt <max> <bytes> (DecodePacket), frame / "
+RULE = ("one case = one operation line. In-process (real code under recover, a watchdog kills an operation that does not "
+        "answer or allocates without bound): chan <topic> (ParseChannel over an option-token grammar: well-formed, dangling, "
+        "empty, illegal tokens in every sequence up to three), mqtt <max> <bytes> (DecodePacket), frame / "
         "state <inner> (DecodeFrame / DecodeState below snappy), gossip / bcast / unicast <inner> and rawgossip / rawunicast "
         "<bytes> (the three swarm callbacks of a complete in-process broker, fresh replicated state), survey <limit> (history "
         "survey from a peer), lookup <limit> (SSD.lookup, capacity of the result buffer). Byte strings: valid sessions / states "
@@ -330,9 +332,37 @@ def unsafe_frame(f):
     return n is not None and 1000000 < n < 2 ** 50
 
 
+OPT_TOKENS = [b"ttl=1", b"last=5", b"me=0", b"from=1600000000", b"until=1600000100", b"x=y", b"a", b"until", b"=v", b"k=", b"",
+              b"=", b"k==v", b"k=v=w", b"k=v!", b"k!=v", b"ttl=" + b"9" * 40, b"Z" * 70 + b"=1", b"k=%26", b"k= "]
+
+
+def channel_strings(rng, tier):
+    """topics as ParseChannel sees them: key '/' levels '/' ['?' options]; the option list runs over every sequence of
+    1..3 tokens (thorough) / a sample (quick) of well-formed, dangling, empty and illegal tokens, with and without a
+    trailing '&', behind exact and wildcard channels"""
+    import itertools
+    heads = [b"k/a/", b"k/a/b/", b"k/+/b/", b"k/a/#/", b"emitter/a/", b"k/", b"/a/", b"k//", b"k/a", b"k/a/b", b"", b"/", b"k/a+/", b"k/" + b"a/" * 30]
+    out = []
+    seqs = [seq for n in (1, 2, 3) for seq in itertools.product(range(len(OPT_TOKENS)), repeat=n)]
+    if tier != "thorough":
+        seqs = [seq for seq in seqs if len(seq) == 1] + rng.sample([q for q in seqs if len(q) == 2], 160) + rng.sample([q for q in seqs if len(q) == 3], 240)
+    for seq in seqs:
+        opts = b"&".join(OPT_TOKENS[i] for i in seq)
+        h = heads[0] if rng.randrange(3) else rng.choice(heads)
+        out.append(h + b"?" + opts + (b"&" if rng.randrange(6) == 0 else b""))
+    for h in heads:
+        out += [h, h + b"?", h + b"?&", h + b"??", h + b"?a=b?c=d"]
+    for _ in range(budget(tier, 150, 3000)):
+        out.append(mutate(rng, rng.choice(out)))
+    return out
+
+
 def gen(rng, tier):
     ops = []
     add = ops.append
+    # ---- channel strings (parsed before any key is looked at)
+    for c in channel_strings(rng, tier):
+        add("chan " + hx(c))
     # ---- MQTT decoder
     sess = sessions(rng)
     limits = [65536, 65536, 65536, 0, 1, 10, 100]
@@ -432,7 +462,7 @@ def attacks(rng, tier, sess, corpus, fcorpus):
         # option values
         for opt in ["a/?last=100000000", "a/?last=9223372036854775807", "a/?last=99999999999999999999", "a/?last=0",
                     "a/?ttl=4294967296&last=2", "a/?from=1&until=99999999999&last=3", "a/?from=9223372036854775807&until=0",
-                    "+/#/?last=1000000"]:
+                    "+/#/?last=1000000", "a/?ttl=1&x", "a/?last=5&until", "a/?a=b&c=&d"]:
             add("attack sub " + opt)
         # JSON requests
         reqs = [
